@@ -41,6 +41,18 @@ pub use vn::VnFirst;
 pub use vn::VnFirstWeight;
 pub use z_curve::ZCurve;
 
+/// Read-only access to private items for the verification harness.
+#[cfg(coupe_verif)]
+pub mod verif {
+    pub use super::hilbert_curve::verif as hilbert;
+    pub use super::multi_jagged::verif as multi_jagged;
+    pub use super::recursive_bisection::verif as rcb;
+    pub use super::z_curve::verif as z_curve;
+    pub use crate::cartesian::verif_cartesian as cartesian;
+    pub use crate::geometry::verif as geometry;
+    pub use crate::work_share::work_share;
+}
+
 /// Common errors thrown by algorithms.
 #[derive(Clone, Copy, Debug)]
 #[non_exhaustive]
